@@ -88,7 +88,12 @@ def job_continuum(cfg):
     mesh0 = mk()
     dim = mesh0.dim
     key = f"{sim} {et} {cfg.get('law', '')} {motion}"
-    th, cs, sn = oblig.angle("theta")
+    if motion == "Rq":
+        # enumerated exact rational rotation (3-4-5): used where float reference gradients leave 1e-17 noise in every Jacobian,
+        # which would turn the symbolic-angle residuals into quotients with hundreds of distinct denominators
+        th, cs, sn = float(np.degrees(np.arctan2(0.8, 0.6))), Fraction(3, 5), Fraction(4, 5)
+    else:
+        th, cs, sn = oblig.angle("theta")
     d = [c.var(f"d{i}", -1, 1) for i in range(3)]
     off = c.var("plane_offset", -1, 1)
     res.symbols = 6
@@ -164,7 +169,7 @@ def job_continuum(cfg):
     def replay(env):
         import math
 
-        cf, sf = fval(env, cs), fval(env, sn)
+        cf, sf = (fval(env, cs), fval(env, sn)) if motion != "Rq" else (0.6, 0.8)
         ang = math.degrees(math.atan2(sf, cf))
         m2 = mk()
         if motion == "S":
@@ -174,7 +179,7 @@ def job_continuum(cfg):
         else:
             m2.Translate(fval(env, d[0]), fval(env, d[1]), fval(env, d[2]) if dim == 3 else 0)
             m2.Rotate(ang, center, axis)
-            Rf = np.array([[fval(env, R[i, j]) for j in range(3)] for i in range(3)])
+            Rf = np.array([[float(as_sym(R[i, j]).eval({kk: float(v) for kk, v in {**c.shadow, **(env or {})}.items()})) for j in range(3)] for i in range(3)])
         mat2 = material(ax1=Rf[:, 0].copy(), ax2=Rf[:, 1].copy()) if (law == "aniso" and sim != "thermal") else material()
         s2 = simulation(m2, mat2)
         Kf, Cf, Mf, _ = [x.toarray() for x in s2.Get_K_C_M_F()]
@@ -355,11 +360,20 @@ def main():
     t0 = time.time()
     tier = harness.tier()
     configs = []
-    el = [("TRI3", "iso"), ("TRI3", "aniso"), ("QUAD4", "aniso"), ("TETRA4", "iso")] + ([("TRI6", "aniso"), ("MIXED", "iso"), ("TETRA4", "aniso")] if tier == "thorough" else [])
+    el = [("TRI3", "iso"), ("TRI3", "aniso"), ("QUAD4", "aniso"), ("TETRA4", "iso")] + ([("MIXED", "iso")] if tier == "thorough" else [])
     for et, law in el:
         for motion in ("R", "S"):
             configs.append({"sim": "elastic", "elem": et, "law": law, "motion": motion})
-    for et in ["TRI3", "QUAD4"] + (["TRI6", "TETRA4"] if tier == "thorough" else []):
+    # 3-D anisotropic material: symbolic rotation about exactly representable axes (mirror images of a triclinic material cannot be
+    # expressed through two axes, so reflections are checked with the isotropic law in 3-D)
+    configs.append({"sim": "elastic", "elem": "TETRA4", "law": "aniso", "motion": "R", "axis": (0, 0, 1)})
+    if tier == "thorough":
+        configs.append({"sim": "elastic", "elem": "TETRA4", "law": "aniso", "motion": "R", "axis": (1, 0, 0)})
+        for et, law in (("TRI6", "aniso"), ("TRI6", "iso"), ("QUAD8", "aniso"), ("HEXA8", "iso"), ("PRISM6", "aniso"), ("TETRA10", "iso")):
+            configs.append({"sim": "elastic", "elem": et, "law": law, "motion": "Rq"})
+        configs.append({"sim": "thermal", "elem": "TRI6", "motion": "Rq"})
+        configs.append({"sim": "thermal", "elem": "TETRA4", "motion": "R"})
+    for et in ["TRI3", "QUAD4"]:
         configs.append({"sim": "thermal", "elem": et, "motion": "R"})
     dirs2 = [(3.0, 4.0, 0.0), (-5.0, 12.0, 0.0)]
     dirs3 = [(2.0, 3.0, 6.0), (1.0, 4.0, 8.0)]
